@@ -807,6 +807,16 @@ func (e *Exec) evalCall(x ECall, env *Env) Val {
 			e.unsupported("funcref: unknown function %q", name)
 		}
 		return intVal(e.funcSym(name))
+	case "implements":
+		// implements(x, "pkg.Iface"): the dynamic type of x implements the interface (same predicate the type switch uses)
+		v := arg(0)
+		ts, ok := x.Args[1].(EStr)
+		if !ok {
+			e.unsupported("implements(x, \"pkg.Iface\")")
+		}
+		_, ty := e.resolveType(ts.Val, nil)
+		impl := e.Out.DeclareFun("implements$"+e.typeName(ty), []Sort{SInt}, SBool)
+		return boolVal("(and " + Not(Eq(v.T, "anynil")) + " " + App(impl, "(typeof "+v.T+")") + ")")
 	case "tagof":
 		ts, ok := x.Args[0].(EStr)
 		if !ok {
